@@ -137,7 +137,7 @@ def main():
     if not maps:
         raise E.MachineryError('no namespace maps emitted')
     shape = {'two': '{id},{f}', 'two_underscore': '{id}_x,{f}', 'three_f32': '{id},{f},f32', 'three_other': '{id},{f},str', 'three_empty': '{id},{f},',
-             'one': '{id}', 'four': '{id},{f},f32,extra'}
+             'three_f32_underscore': '{id}_x,{f},f32', 'three_empty_underscore': '{id}_x,{f},', 'one': '{id}', 'four': '{id},{f},f32,extra'}
     files = []
     for es, _, _ in maps:
         files.append(''.join(shape[k].format(id=f'A{chr(97 + i)}', f=f'feat{i + 1}') + '\n' for i, k in enumerate(es)))
@@ -146,7 +146,7 @@ def main():
         V.violation('raises:nsmap', f'parse_namespace failed: {PC.failure_text(got)}', {'file': files[0]})
     else:
         for (es, emap, efl), txt, ob in zip(maps, files, got['ok']):
-            exp_map = {f'A{chr(97 + i - 1)}': f'feat{i}' for i in emap}
+            exp_map = {f'A{chr(97 + i - 1)}' + ('_x' if 'underscore' in es[i - 1] else ''): f'feat{i}' for i in emap}
             exp_fl = sorted(f'feat{i}' for i in efl)
             if ob['map'] != exp_map or ob['floats'] != exp_fl:
                 V.violation(f'nsmap:{txt!r}', f'parse_namespace gives map {ob["map"]} floats {ob["floats"]}; declared {exp_map} floats {exp_fl}', {'file': txt})
